@@ -128,3 +128,50 @@ def j1_conformance(rep, scenarios):
             'program (the environment model misrepresents ddSMT): ' +
             '; '.join(f'{r["name"]}: {r["why"]}' for r in bad[:3]))
     return results
+
+
+def jn_one(scn):
+    """-j 2/3: the final output of real runs (real Pool, real Manager event,
+    real subprocesses) must be one of the final outputs the model reaches
+    within 2 schedule deviations (state pruning on)."""
+    common.import_ddsmt()
+    sched.install()
+    outs = set()
+
+    def on_exec(ch, x):
+        if not x.pruned and x.crash is None:
+            outs.add(FRESH.sub('x#__fresh', (x.out_bytes or b'').decode()))
+
+    sched._VISITED.clear()
+    pscn = dict(scn, prune=True)
+    n, capped = explore.explore(lambda ch: sched.run_once(pscn, ch),
+                                {'sched': 2}, on_exec, max_execs=6000)
+    reals = []
+    with common.scratch_dir('ddv-confn-') as d:
+        for i in range(2):
+            rc, runs, data, err = real_run(scn, d, f'r{i}')
+            reals.append((rc, FRESH.sub('x#__fresh', (data or b'').decode()),
+                          len(runs)))
+    bad = [r for r in reals if r[0] != 0 or r[1] not in outs]
+    return {'name': scn['name'], 'model_outputs': len(outs), 'execs': n,
+            'real': [r[1] for r in reals], 'ok': not bad, 'capped': capped,
+            'invocations': sum(r[2] for r in reals)}
+
+
+def jn_conformance(rep, scenarios):
+    scns = [s for s in scenarios if s.get('cc_model') is None and
+            s['model'][0] != 'adversarial']
+    results = common.pmap(jn_one, scns)
+    good = [r for r in results if r['ok']]
+    rep.count('traces_validated_against_impl', 2 * len(good))
+    rep.count('real_parallel_runs_compared', 2 * len(results))
+    rep.count('real_command_invocations_compared',
+              sum(r['invocations'] for r in results))
+    bad = [r for r in results if not r['ok'] and not r['capped']]
+    if bad:
+        raise common.HarnessError(
+            'conformance mismatch: a real -j n run ended in an output that '
+            'no model execution within 2 deviations produces: ' + '; '.join(
+                f'{r["name"]}: real {r["real"]} model outputs '
+                f'{r["model_outputs"]}' for r in bad[:3]))
+    return results
